@@ -414,9 +414,13 @@ def w_buffer_reuse(item, seed=0, depth=2):
     tails = [[b] for b in range(len(REUSE_CASES))] if depth == 2 else [[b, c] for b in range(len(REUSE_CASES)) for c in range(len(REUSE_CASES))]
     for tail in tails:
         hist = [first] + tail
-        if impl == "torch":
-            ref_buf = torch.zeros(shape, dtype=torch.float64)
-            im_buf = torch.zeros(shape, dtype=torch.float64)
+        if impl.startswith("torch"):
+            ref_np, im_np = np.zeros(shape), np.zeros(shape)
+            if impl == "torch:from_numpy":  # tensors that share memory with NumPy buffers: refilling the buffer
+                ref_buf, im_buf = torch.from_numpy(ref_np), torch.from_numpy(im_np)  # does not bump the tensor version
+            else:
+                ref_buf = torch.zeros(shape, dtype=torch.float64)
+                im_buf = torch.zeros(shape, dtype=torch.float64)
         else:
             ref_buf = np.zeros(shape)
             im_buf = np.zeros(shape)
@@ -425,9 +429,16 @@ def w_buffer_reuse(item, seed=0, depth=2):
             which, s = REUSE_CASES[ci]
             im = make_image(shape, which, seed)
             ref = fshift(im, s)
-            if impl == "torch":
-                ref_buf.copy_(torch.tensor(ref))
-                im_buf.copy_(torch.tensor(im))
+            if impl.startswith("torch"):
+                if impl == "torch:from_numpy":
+                    np.copyto(ref_np, ref)
+                    np.copyto(im_np, im)
+                elif impl == "torch:data":  # same tensor objects, new storage assigned through .data (no version bump)
+                    ref_buf.data = torch.tensor(ref)
+                    im_buf.data = torch.tensor(im)
+                else:
+                    ref_buf.copy_(torch.tensor(ref))
+                    im_buf.copy_(torch.tensor(im))
                 est = U.cross_correlation_shift_torch(ref_buf, im_buf, upsample_factor=up).detach().cpu().numpy().astype(float)
             else:
                 np.copyto(ref_buf, ref)
@@ -437,8 +448,51 @@ def w_buffer_reuse(item, seed=0, depth=2):
         case = {"part": "buffer_reuse", "impl": impl, "shape": list(shape), "upsample": up, "history": [[REUSE_CASES[c][0], list(REUSE_CASES[c][1])] for c in hist]}
         e = float(np.max(np.abs(wrapdiff(est, s, shape))))
         t.case(key=case, nontrivial=len(set(hist)) > 1, outcome=[round(float(v), 3) for v in est])
-        if not np.all(np.isfinite(est)) or e > EXACT_TOL[impl]:
+        if not np.all(np.isfinite(est)) or e > EXACT_TOL[impl.split(":")[0]]:
             t.fail({"relation": "result_depends_only_on_current_contents", "impl": impl}, case, f"{impl}: buffers refilled in place, history {case['history']}: the last call returned {est.tolist()}, applied shift {list(s)} (error {e:.4g} px)")
+    return t
+
+
+def w_reentrant(item, seed=0):
+    """RE-ENTRANT use: an argument is a lazy array-like whose __array__ (NumPy estimator) calls the estimator again — on
+    images of the same shape, of another shape — before it hands over its pixels; the argument may be the reference or
+    the moving image. Outer and inner results must be the results of the same two calls made one after the other."""
+    from quantem.core.utils import imaging_utils as U
+
+    shape, up = tuple(item[0]), int(item[1])
+    t = Tally()
+    im = make_image(shape, "0", seed)
+    s = (3, -2)
+    ref = fshift(im, s)
+    for inner_shape in (shape, (shape[0] + 1, shape[1])):
+        im2 = make_image(inner_shape, "blob", seed)
+        s2 = (-1, 2)
+        ref2 = fshift(im2, s2)
+        for lazy_arg in ("im", "im_ref"):
+            box = {}
+
+            class Lazy:
+                def __init__(self, arr):
+                    self.arr = arr
+                    self.shape, self.dtype, self.ndim = arr.shape, arr.dtype, arr.ndim
+
+                def __array__(self, dtype=None, copy=None):
+                    if "inner" not in box:
+                        box["inner"] = np.asarray(U.cross_correlation_shift(ref2.copy(), im2.copy(), upsample_factor=up), float)
+                    return self.arr if dtype is None else self.arr.astype(dtype)
+
+            case = {"part": "reentrant", "shape": list(shape), "upsample": up, "inner_shape": list(inner_shape), "lazy_argument": lazy_arg}
+            try:
+                a, b = (Lazy(ref.copy()), im.copy()) if lazy_arg == "im_ref" else (ref.copy(), Lazy(im.copy()))
+                est = np.asarray(U.cross_correlation_shift(a, b, upsample_factor=up), float)
+            except Exception as ex:  # noqa: BLE001 - an array-like the tree under test does not take: counted
+                t.extra[f"lazy_array_like_rejected:{type(ex).__name__}"] += 1
+                continue
+            t.case(key=case, nontrivial=True, outcome=[round(float(v), 3) for v in est])
+            e = float(np.max(np.abs(wrapdiff(est, s, shape)))) if est.shape == (2,) else np.inf
+            ei = float(np.max(np.abs(wrapdiff(box["inner"], s2, inner_shape)))) if "inner" in box else 0.0
+            if e > EXACT_TOL["numpy"] or ei > EXACT_TOL["numpy"]:
+                t.fail({"relation": "reentrant_call_does_not_disturb_the_running_call", "same_shape": tuple(inner_shape) == shape, "lazy_argument": lazy_arg}, case, f"numpy estimator, shape={shape} upsample={up}: a nested call (shape {inner_shape}) made from {lazy_arg}.__array__: outer call returned {est.tolist()} for applied {list(s)} (error {e:.3g} px), inner error {ei:.3g} px")
     return t
 
 
@@ -490,7 +544,8 @@ def run(ctx):
     sm = [(sh, w, sft, u) for sh in ([(8, 11)] if q else [(8, 11), (9, 9), (12, 16)]) for w in (["0"] if q else ["0", "blob"]) for sft in sm_shifts for u in sm_factors]
     ctx.coverage["bounds"]["scale_modes"] = {"scales": SCALES, "modes": MODES, "points": len(sm)}
     ctx.pmap(w_scale_modes, sm, chunk=1, label="image scale / process-wide modes", seed=ctx.seed)
-    reuse = list(itertools.product(impls, [(8, 11)] if q else [(8, 11), (9, 9)], [1, 4] if q else [1, 3, 8], range(len(REUSE_CASES))))
+    ctx.pmap(w_reentrant, [((8, 11), 1), ((8, 11), 4)] if q else [(sh, u) for sh in [(8, 11), (9, 9)] for u in (1, 3, 8)], chunk=1, label="re-entrant calls", seed=ctx.seed)
+    reuse = list(itertools.product(list(impls) + ["torch:from_numpy", "torch:data"], [(8, 11)] if q else [(8, 11), (9, 9)], [1, 4] if q else [1, 3, 8], range(len(REUSE_CASES))))
     ctx.coverage["bounds"]["buffer_reuse"] = {"cases": [[w, list(sh)] for w, sh in REUSE_CASES], "depth": 2 if q else 3}
     ctx.pmap(w_buffer_reuse, reuse, chunk=1, label="reused buffers (call histories)", seed=ctx.seed, depth=2 if q else 3)
     if len(ctx.tally.outcomes) < 50:
@@ -510,6 +565,13 @@ def replay(ctx, case):
         r = w_scale_modes((case["shape"], case["image"], case["shift"], case["upsample"]), seed=ctx.seed)
         for f in r.fails:
             if all(f["case"].get(k) == case.get(k) for k in ("impl", "dtype", "scale", "mode")):
+                print("  ", f["msg"])
+                ctx.fail(f["cls"], f["case"], f["msg"])
+        return
+    if case.get("part") == "reentrant":
+        r = w_reentrant((case["shape"], case["upsample"]), seed=ctx.seed)
+        for f in r.fails:
+            if f["case"]["inner_shape"] == case["inner_shape"] and f["case"]["lazy_argument"] == case["lazy_argument"]:
                 print("  ", f["msg"])
                 ctx.fail(f["cls"], f["case"], f["msg"])
         return
